@@ -86,7 +86,7 @@ def run(res, ctx):
     st = collections.Counter()
     seen, samples, corr = set(), [], []
     maxres = ZERO
-    n = 1500 if tier == "quick" else 8000
+    n = 1500 if tier == "quick" else 40000
     done = 0
     first = True
     while done < n:
